@@ -2223,8 +2223,9 @@ def allclose(a, b, atol: float = 1e-8):
     -----------
     bool indicating if all elements are within `atol`.
     """
-    #
-    return float(np.ptp(a - b)) < atol
+    # largest absolute difference: `ptp` only measures the spread of
+    # the differences so a constant offset would compare as "close"
+    return float(np.abs(a - b).max()) < atol
 
 
 class FunctionRegistry(Mapping):
